@@ -228,6 +228,7 @@ def run_case(cfg):
     mem = cfg["mem"]
     sig = "|".join(str(x) for x in (fam, mem.get("family", mem.get("cls")), cfg["workload"]["class"],
                                     tuple(cfg["workload"].get("port_roles") or ()), P, bool(cfg.get("zq"))))
+    st["history_sample"] = (W_ if "W_" in dir() else W).trace_sample(tr)
     return dict(verdict="violated" if v else "held", violations=v[:8], stats=st, nontrivial=nontrivial, signature=sig)
 
 
